@@ -72,7 +72,7 @@ func instantiate(t *Term, pos bool, consts []*Term, budget *int) *Term {
 			total := 1
 			for _, c := range cands {
 				total *= len(c)
-				if total > 27 {
+				if total > 100 {
 					return t
 				}
 			}
@@ -121,17 +121,45 @@ func instantiate(t *Term, pos bool, consts []*Term, budget *int) *Term {
 }
 
 // prepareQuery skolemises the goal and returns extra hypothesis instances.
-func prepareQuery(pc, goal *Term) (newGoal *Term, extra *Term) {
+func prepareQuery(pc, goal *Term, hints []*Term) (newGoal *Term, newPC *Term, extra *Term) {
 	var sk []*Term
+	// antecedents of the goal are hypotheses (so that they get instantiated as well)
+	for goal.kind == 'a' && goal.op == "=>" {
+		pc = And(pc, goal.args[0])
+		goal = goal.args[1]
+	}
 	g := skolemize(goal, true, &sk)
-	if len(sk) == 0 {
-		return goal, True
+	// existential content of the hypotheses (exists, or forall in an antecedent) gets constants too
+	var hsk []*Term
+	var hyps []*Term
+	for _, c := range conjuncts(pc) {
+		if hasQuant(c) {
+			c = skolemize(c, false, &hsk)
+		}
+		hyps = append(hyps, c)
+	}
+	pc = And(hyps...)
+	if len(hsk) <= 4 {
+		sk = append(sk, hsk...)
+	}
+	if len(sk) == 0 && len(hints) == 0 {
+		return g, pc, True
 	}
 	// also offer neighbours of integer skolems (shifted accesses such as old[i+1])
 	consts := append([]*Term{}, sk...)
 	for _, c := range sk {
 		if c.sort == SInt && len(sk) <= 2 {
 			consts = append(consts, Add(c, IntLit(1)), Sub(c, IntLit(1)))
+		}
+	}
+	seen := map[int]bool{}
+	for _, c := range consts {
+		seen[c.id] = true
+	}
+	for _, h := range hints {
+		if !seen[h.id] && len(consts) < 9 {
+			seen[h.id] = true
+			consts = append(consts, h)
 		}
 	}
 	budget := 400
@@ -144,5 +172,5 @@ func prepareQuery(pc, goal *Term) (newGoal *Term, extra *Term) {
 			}
 		}
 	}
-	return g, And(parts...)
+	return g, pc, And(parts...)
 }
